@@ -35,6 +35,9 @@ type c13Case struct {
 	// Drop: the target closes the (reused) connection after reading this request, once; the proxy's
 	// transport may retry a replayable request on a new connection
 	Drop bool `json:"drop_reused_connection,omitempty"`
+	// Hints: the target sends this many 103 Early Hints responses before its final one; a request
+	// with "Expect: 100-continue" additionally gets a 100 Continue from the target.
+	Hints int `json:"early_hints,omitempty"`
 }
 
 type c13Scenario struct {
@@ -185,6 +188,12 @@ func c13Gen(rng *rand.Rand, idx, ncases int) c13Scenario {
 				c.RHdr = append(c.RHdr, [2]string{"Content-Type", pick(rng, []string{"text/plain", "application/octet-stream", "application/json; charset=utf-8"})})
 			}
 		}
+		if rng.IntN(5) == 0 {
+			c.Hints = 1 + rng.IntN(2)
+		}
+		if c.Body > 0 && rng.IntN(5) == 0 {
+			c.Hdr = append(c.Hdr, [2]string{"Expect", "100-continue"})
+		}
 		if c.Svc == "buf" {
 			c.Path = "/x" + rest
 			c.TLS = false
@@ -299,6 +308,13 @@ func (e *c13Echo) serve(ft *FakeTarget, c net.Conn) {
 			wire = append(wire, [2]string{"Connection", "close"})
 		default:
 			wire = append(wire, [2]string{"Content-Length", fmt.Sprint(len(body))})
+		}
+		// informational responses first (the final status must still be the one the client gets)
+		if strings.EqualFold(m.First("Expect"), "100-continue") {
+			fmt.Fprintf(c, "HTTP/1.1 100 Continue\r\n\r\n")
+		}
+		for i := 0; i < cs.Hints; i++ {
+			fmt.Fprintf(c, "HTTP/1.1 103 Early Hints\r\nLink: </style-%d.css>; rel=preload\r\n\r\n", i)
 		}
 		if err := writeRaw(c, sent.Line, wire, body, chunks); err != nil {
 			return
